@@ -1,8 +1,8 @@
 """Composition harnesses: tiny functions that only *compose* repository functions, so that a law about a
 composition (a round trip) becomes the postcondition of one function the verifier can run symbolically.
 The repository functions they call are resolved from $VERIF_REPO and interpreted inline from their real AST;
-nothing of the repository is copied here.  (This module is not a contract module: its name does not start
-with 'c', so the check driver does not import it.)"""
+nothing of the repository is copied here.  (This module is not a contract module: its name starts with '_',
+so the check driver does not import it.)"""
 
 
 def c07_roundtrip(base, curr):
